@@ -501,6 +501,12 @@ def vPow (a b : Val) : Except PErr Val :=
       else
         -- negative number under a non-integer power: `I` (→ UnitParseError) for square roots,
         -- `(-1)**(p/q)` (→ float() of a complex: TypeError) otherwise
+        -- (sympy first takes out the integer part of the exponent: `(-8)**(19**9/3)` computes 2**(19**9))
+        let w := max (bitsOf c.num.natAbs) (bitsOf c.den)
+        let est := (q.num.natAbs / q.den) * (w - 1)
+        if est > hangBits then .error .hang
+        else if est > bitLimit then unm
+        else
         let f := UExpr.normF (UExpr.scaleF x.factors q)
         if okFactors f then .ok (.bad (if q.den = 2 then .unitParseError else .typeError) f true) else unm
   | _, _ => unm
